@@ -350,6 +350,30 @@ def vec_forms(N, L):
         fs.append(('dot(M,M)', lambda x: algopy.dot(Mx(x), Mx(x) + cmat(N, N).T)))
         fs.append(('dot(V,dot(M,V))', lambda x: algopy.dot(x * cvec(N), algopy.dot(Mx(x), x)) * cvec(2)))
         fs.append(('outer(V,V)', lambda x: algopy.outer(x, x * cvec(N) + 1.0)))
+        # accumulator idiom: s = 0; s += x[0]; s += x[1] ... and the first addend is used again afterwards
+        def accum(x):
+            s = 0
+            for i in range(N):
+                s += x[i]
+            return s * x[0] * cvec(2)
+        fs.append(('s=0;s+=x[i];s*x[0]', accum))
+
+        def accum2(x):
+            s = 0.0
+            s = s + x[0]
+            s *= x[N - 1]
+            return (s + x[0]) * cvec(2)
+        fs.append(('s=0.0+x[0];s*=x[-1]', accum2))
+        # data-dependent branches on comparisons of two polynomials whose base values are EQUAL at every point (ties): Python
+        # floats take the else branch for > and <, the if branch for >= and <=; the reference is the polynomial of that branch
+        def br(op, x):
+            a = x[0] * x[0]
+            b = x[0] * x[0] + 0.0 * x[N - 1]
+            return (a * x[N - 1] if op(a, b) else b * x[0] + x[N - 1]) * cvec(2)
+        import operator as _op
+        for onm, o, taken_if in (('>', _op.gt, False), ('<', _op.lt, False), ('>=', _op.ge, True), ('<=', _op.le, True)):
+            fs.append(('branch a%sb at a tie' % onm, (lambda x, o=o: br(o, x)),
+                       (lambda x, t=taken_if: ((x[0] * x[0]) * x[N - 1] if t else (x[0] * x[0]) * x[0] + x[N - 1]) * cvec(2))))
         # both operands the very same object
         fs.append(('dot(x,x) same object', lambda x: algopy.dot(x, x) * cvec(2) + x[0]))
 
